@@ -267,22 +267,39 @@ func depSame(a, b Dep) bool {
 // forSections calls f on every dependency list of every file: the main
 // <dependencies>, the main managed list, and both lists of each profile.
 func forSections(l *Lineage, f func(list *[]Dep)) {
+	forSectionsOf(l, true, true, f)
+}
+
+func forSectionsOf(l *Lineage, deps, mgmt bool, f func(list *[]Dep)) {
 	for i := range l.Poms {
 		p := &l.Poms[i]
-		f(&p.Deps)
-		f(&p.Mgmt)
+		if deps {
+			f(&p.Deps)
+		}
+		if mgmt {
+			f(&p.Mgmt)
+		}
 		for j := range p.Profiles {
-			f(&p.Profiles[j].Deps)
-			f(&p.Profiles[j].Mgmt)
+			if deps {
+				f(&p.Profiles[j].Deps)
+			}
+			if mgmt {
+				f(&p.Profiles[j].Mgmt)
+			}
 		}
 	}
 }
 
-// dupInOnePom: one list of one file declares the same (group, artifact, type,
+// dupInOnePom: one list of one file (managed = false: a <dependencies> list;
+// managed = true: a managed list) declares the same (group, artifact, type,
 // classifier) twice with different content.
-func dupInOnePom(l *Lineage) bool {
+func dupInOnePom(managed bool) func(l *Lineage) bool {
+	return func(l *Lineage) bool { return dupInOnePom1(l, managed) }
+}
+
+func dupInOnePom1(l *Lineage, managed bool) bool {
 	found := false
-	forSections(l, func(list *[]Dep) {
+	forSectionsOf(l, !managed, managed, func(list *[]Dep) {
 		first := map[string]Dep{}
 		for _, d := range *list {
 			k := depKey(d)
@@ -304,9 +321,13 @@ func dupInOnePom(l *Lineage) bool {
 
 // dropDupInOnePom leaves one declaration of each key in each list: the first
 // one, or the last one (at the first one's position).
-func dropDupInOnePom(l *Lineage) []*Lineage {
+func dropDupInOnePom(managed bool) func(l *Lineage) []*Lineage {
+	return func(l *Lineage) []*Lineage { return dropDupInOnePom1(l, managed) }
+}
+
+func dropDupInOnePom1(l *Lineage, managed bool) []*Lineage {
 	first, last := cloneLineage(l), cloneLineage(l)
-	forSections(first, func(list *[]Dep) {
+	forSectionsOf(first, !managed, managed, func(list *[]Dep) {
 		seen := map[string]bool{}
 		var out []Dep
 		for _, d := range *list {
@@ -319,7 +340,7 @@ func dropDupInOnePom(l *Lineage) []*Lineage {
 		}
 		*list = out
 	})
-	forSections(last, func(list *[]Dep) {
+	forSectionsOf(last, !managed, managed, func(list *[]Dep) {
 		at := map[string]int{}
 		var out []Dep
 		for _, d := range *list {
@@ -608,7 +629,8 @@ func familyAsKnown(l *Lineage) []*Lineage {
 }
 
 var shapes = []shape{
-	{class: "C15:dup-in-one-pom", detect: dupInOnePom, reduce: dropDupInOnePom},
+	{class: "C15:dup-in-one-pom:deps", detect: dupInOnePom(false), reduce: dropDupInOnePom(false)},
+	{class: "C15:dup-in-one-pom:mgmt", detect: dupInOnePom(true), reduce: dropDupInOnePom(true)},
 	{class: "C15:profile-dup-key", detect: profileDupKey, reduce: dropProfileDupKey},
 	{class: "C15:bom-parent-builtin", detect: bomParentBuiltin, reduce: literalBomParent},
 	{class: "C15:jdk-prefix", detect: jdkSpec(false), reduce: jdkAsRange(false)},
